@@ -21,12 +21,16 @@ def main(argv=None):
              'second connection; every fifth case is a structured scenario with random objects/values/filler '
              '(replay conflict, object first saved by a later savepoint, repeated rollbacks around creation, '
              'savepoint before joining, abort after savepoints, explicit add, an object that reloads itself when '
-             'invalidated); corpus first (the reproduced TmpStore.reset defect); non-trivial = at least 2 successful '
+             'invalidated, a commit whose own checkpoint fails on an unpicklable object after an earlier savepoint); '
+             'plus 60 (thorough: 2000) programs of the blob family (blobs in containers, open modes w/a/r+, '
+             'savepoint, rollback, cacheMinimize between savepoint and commit, commit, abort, reads of a second '
+             'connection; oracle only); corpus first (the reproduced TmpStore.reset defect); non-trivial = at least 2 successful '
              'rollbacks, one of them to a savepoint older than a later savepoint; distinct by hash of the case',
         assumptions=['C12 promises nothing about the in-memory state of an object that was un-added; once such an '
                      'object whose state was lost (finding C11:stored-new-object-ghostified-on-abort) is added '
                      'again the rest of the program is outside the claim (counted as tainted-by-C11-finding)',
-                     'blob writes inside savepoints are exercised by the C13 check',
+                     'the blob family is judged by the oracle alone (bytes per blob; savepoint = copy, rollback = '
+                     'restore); the blob FILES of the storage are the subject of C13',
                      'objects that reload themselves on invalidation (persistent classes, self-activating objects) '
                      'are not in the Lean model: the cases containing one are judged by the oracle alone '
                      '(counted as oracle-only:self-activating-object)',
